@@ -55,7 +55,9 @@ C14_VARIANTS = {}  # driver name -> source path (layout variants of trapio.dora)
 def c14_make_run(s, i):
     wl = tb.stream(s, "C14", i, "workload")
     cfg = tb.stream(s, "C14", i, "config")
-    script = mt.generate(wl)
+    # (the concurrent mode, where == 2, runs only under the simulator - c14_b_run - where the
+    # interleaving is decided by the seed)
+    script = mt.generate(wl, concurrent=False)
     gc = cfg.choice(["swiper", "swiper", "copy", "sweep"])
     cg = cfg.choice(["cannon", "boots"])
     driver = "trapio"
@@ -134,6 +136,11 @@ def c14_classify(r, res):
     if res["timeout"]:
         return ("timeout", "no termination within %ds" % r["timeout"])
     out, err, rc = res["stdout"], res["stderr"], res["rc"]
+    if mt.parse(r["argv"])[0] == 2:
+        nmark = out.count(mt.MARKER)
+        out = mt.strip_markers(out)
+        if nmark > mt.NMARKERS or (exp["rc"] == 0 and r["mode"] != "fatal" and nmark != mt.NMARKERS):
+            return ("stdout-wrong", "%d marker lines of the printer threads, expected %s%d" % (nmark, "" if exp["rc"] == 0 else "at most ", mt.NMARKERS))
     first = err.splitlines()[0] if err.strip() else None
     if r["mode"] == "fatal":
         # deliberately relaxed: an unrecoverable stdout error may end the program in any way,
@@ -251,10 +258,15 @@ def c14(tier):
             log("  class=%s detail=%s (seen %d times)" % (cv[0], cv[1], len(vio[cls])))
             exit_code = 1
         reported.append({"class": cv[0], "detail": cv[1], "replay": rp, "key": key, "occurrences": len(vio[cls])})
+    # the same driver as a whole simulated executable with concurrent printers and collections
+    bcov, brep, bec = c14_tier_b(tier, tier_budget(tier, 35, 600) if not os.environ.get("VERIF_BUDGET_S") else float(os.environ["VERIF_BUDGET_S"]) / 2)
+    exit_code = max(exit_code, bec)
+    reported += brep
     wall = time.time() - t0
     coverage = {
-        "evaluations": len(done),
-        "distinct_nontrivial": len(distinct),
+        "evaluations": len(done) + bcov["runs"],
+        "distinct_nontrivial": len(distinct) + bcov["distinct_nontrivial"],
+        "tier_B_concurrent_printers": bcov,
         "rule": "one evaluation = one execution of a real (guard-off) executable of the trapio driver on a generated script (prints of lengths around the 1 KiB buffer and 8 KiB pipe boundaries, then one trap kind at a known line in a known call chain, on main or a spawned thread) with sink kind and a stdout fault plan drawn from the seed; "
                 "distinct = distinct (script, executable, fault plan, sink); non-trivial = passed its oracle and either a trap was involved or at least one I/O fault fired",
         "samples": samples,
@@ -273,6 +285,86 @@ def c14(tier):
                     "write(2) faults are injected below Rust's std, at the libc symbol"])
     log("C14: %d runs, %d distinct non-trivial, %d violation class(es), %.1fs" % (len(done), len(distinct), len(reported), wall))
     return exit_code
+
+
+def c14_b_run(s, i, fault_free):
+    """Whole-executable simulation of the trap driver: the script (prints, then a trap) runs on
+    a spawned thread while two printer threads write marker lines and the main thread
+    allocates and forces collections; seeded schedule, injected collections."""
+    wl = tb.stream(s, "C14", i, "b-workload")
+    cfg = tb.stream(s, "C14", i, "b-config")
+    where, prints, trap, depth = mt.parse(mt.generate(wl))
+    where = wl.choice([2, 2, 2, 1])
+    # keep the simulated runs short: at most 3 prints of at most 20000 bytes
+    prints = [(k, min(n, 20000)) for (k, n) in prints[:3]]
+    if trap in (6, 11):
+        trap = wl.choice([1, 2, 3, 9, 10])      # heap exhaustion is C13's subject
+    script = mt.make(where, prints, trap, depth)
+    exp = mt.expected(script)
+    gc = cfg.choice(["swiper", "swiper", "copy", "sweep"])
+    cg = cfg.choice(["cannon", "boots"])
+    workers = cfg.choice([1, 2, 4])
+    flags = ["--max-heap-size=16M", "--gc-worker=%d" % workers]
+    if gc == "swiper" and cfg.random() < 0.5:
+        flags.append("--gc-young-size=%dM" % cfg.choice([1, 2]))
+    faults = tb.draw_faults(cfg, fault_free)
+    tb.cap_fault_rates(faults, 4000, gc, 16, False, run_budget_ms=600)
+    sim = {"seed": cfg.getrandbits(48), "policy": tb.draw_policy(cfg, 5 + workers, 3000), "hot": 0}
+    sim.update(faults)
+    e = {"rc": exp["rc"], "stdout": exp["stdout"].decode("utf-8"), "stdout_strip": "#\n", "stdout_strip_max": mt.NMARKERS}
+    if exp["stderr_first"]:
+        e["stderr_first"] = exp["stderr_first"]
+    elif exp["rc"] == 0:
+        e["stderr_empty"] = True
+    return {"index": i, "exe": ["trapio", gc, cg, "sim"], "argv": script, "dora_flags": " ".join(flags), "sim": sim, "expect": e, "timeout": 60, "fault_free": fault_free,
+            "tags": {"gc": gc, "codegen": cg, "where": where, "trap": trap, "policy": sim["policy"].split(":")[0], "fault_free": fault_free}}
+
+
+def c14_tier_b(tier, budget_s):
+    """Returns (coverage, reported, exit_code)."""
+    exes = tb.build_executables(["trapio"], ["swiper", "copy", "sweep"], ["cannon", "boots"], sim=True)
+    s = seed()
+    gate = [c14_b_run(s + 7919, i, i % 2 == 0) for i in range(4)]
+    tb.determinism_gate("C14", exes, gate, n=4)
+    batch = tb.Batch("C14", exes)
+    lock = threading.Lock()
+    state = {"next": 0, "stop": False}
+    t0 = time.time()
+    done = {}
+
+    def worker():
+        while True:
+            with lock:
+                if state["stop"] or time.time() - t0 > budget_s:
+                    return
+                i = state["next"]
+                state["next"] += 1
+            run = c14_b_run(s, 2_000_000 + i, i % 5 == 0)
+            res = tb.execute(run, exes)
+            with lock:
+                done[i] = (run, res)
+                v = tb.classify(run, res)
+                if v is not None and v[0] != "timeout":
+                    state["stop"] = True
+
+    ths = [threading.Thread(target=worker) for _ in range(JOBS)]
+    for t in ths:
+        t.start()
+    for t in ths:
+        t.join()
+    for i in sorted(done):
+        batch.account(*done[i])
+    exit_code, reported = 0, []
+    if batch.violations:
+        def expect_fn(argv, run):
+            return run["expect"]
+        exit_code, reported = tb.handle_violations("C14", batch, exes, None, expect_fn, None)
+    c = batch.counters
+    cov = {"runs": c["runs"], "distinct_nontrivial": len(batch.distinct), "scheduler_steps": c["decisions"], "preemptions": c["preemptions"],
+           "gc_minor_injected": c["gc_minor_injected"], "gc_full_injected": c["gc_full_injected"], "alloc_fail_injected": c["alloc_fail_injected"],
+           "stop_the_world_operations": c["stw_operations"], "configuration_counts": batch.by, "samples": batch.samples[:1],
+           "what": "the trap driver as a whole simulated executable: the script (prints, then a trap or an exit) on a spawned thread while two printer threads write marker lines and the main thread allocates and forces collections; oracle: exit status, first stderr line, and stdout without the marker lines == model, never a hang"}
+    return cov, reported, exit_code
 
 
 def c14_minimise(r, res, v, exes, max_tests=60):
